@@ -47,7 +47,7 @@ def profile(r, tier, index):
         }
     return {
         "mailboxes": ["inbox", "work", "a/b"][: r.randint(2, 3)], "sessions": r.randint(2, 3), "weights": W, "init_hi": 7,
-        "ops_lo": 8, "ops_hi": 40 if tier == "thorough" else 28, "mode": "sequential", "bad_set_p": 0.12, "examine_p": 0.3,
+        "ops_lo": 8, "ops_hi": 40 if tier == "thorough" else 28, "mode": "sequential", "probe_p": r.choice((1.0, 1.0, 0.35, 0.1)), "bad_set_p": 0.12, "examine_p": 0.3,
     }
 
 
